@@ -65,7 +65,7 @@ def put_case():
         import paramiko.sftp_file as SF
         size = ctx.choice("size", SIZES)
         fail = ctx.choice("failing-write", [None, 1, 2, 3])
-        code = ctx.choice("error-code", [4, 3, 8]) if fail else 0
+        code = ctx.choice("error-code", [4, 3, 8, 1]) if fail else 0
         confirm = ctx.flag("confirm")
         src = _content(size)
         files = {}
@@ -75,7 +75,7 @@ def put_case():
             outcome = "returned"
         except S.WouldBlockForever:
             outcome = "blocked"
-        except (IOError, OSError):
+        except (IOError, OSError, EOFError):
             outcome = "raised"
         nwrites = link.faults.n["write"]
         rejected = bool(fail) and fail <= nwrites
@@ -88,7 +88,7 @@ def put_case():
             ctx.prove(rejected, "put-raises-only-when-something-failed")
     return Case("putfo", fn, ["put-returned=>destination-equals-source", "a-rejected-pipelined-write-surfaces-no-later-than-close",
                               "put-raises-only-when-something-failed"],
-                {"sizes": SIZES, "failing write": [None, 1, 2, 3], "error codes": [4, 3, 8], "confirm": "on/off"})
+                {"sizes": SIZES, "failing write": [None, 1, 2, 3], "error codes": [4, 3, 8, 1], "confirm": "on/off"})
 
 
 def get_case():
@@ -130,5 +130,57 @@ def get_case():
                  "max concurrent": [None, 1, 2]})
 
 
+PIPE_OPS = ["write2", "rewind+read1", "stat", "flush"]
+
+
+def pipelined_file_case(nops):
+    """what put() is built from, used directly: a pipelined SFTPFile with synchronous requests in between the writes"""
+    def fn(ctx):
+        fail = ctx.choice("rejected-write", [None, 1, 2])
+        code = ctx.choice("error-code", [4, 3, 1]) if fail else 0
+        files = {}
+        link = S.Link(files, Faults("write", fail or 0, code))
+        ref, pos = bytearray(), 0
+        sync_between = False
+        outcome = "returned"
+        try:
+            f = link.client.open("/f", "w+")
+            f.set_pipelined(True)
+            for i in range(nops):
+                op = ctx.choice("op%d" % i, PIPE_OPS)
+                if op == "write2":
+                    d = bytes([65 + i, 97 + i])
+                    f.write(d)
+                    ref[pos:pos + 2] = d
+                    pos += 2
+                elif op == "rewind+read1":
+                    f.seek(0)
+                    got = f.read(1)
+                    pos = min(1, len(ref))
+                    if not fail:
+                        ctx.prove(got == bytes(ref[:1]), "read-on-a-pipelined-file-returns-the-bytes-written")
+                elif op == "stat":
+                    f.stat()
+                else:
+                    f.flush()
+            f.close()
+        except S.WouldBlockForever:
+            outcome = "blocked"
+        except (IOError, OSError, EOFError):
+            outcome = "raised"
+        nwrites = link.faults.n["write"]
+        rejected = bool(fail) and fail <= nwrites
+        ctx.prove(outcome != "blocked", "never-waits-for-a-response-that-was-never-sent")
+        if outcome == "returned":
+            if not rejected:
+                ctx.prove(bytes(files["/f"].data) == bytes(ref), "closed-without-error=>file-holds-exactly-what-was-written")
+            else:
+                ctx.prove(False, "a-rejected-pipelined-write-surfaces-no-later-than-close(file-object,synchronous-request-in-between)")
+        else:
+            ctx.prove(rejected, "raises-only-when-something-failed")
+    return Case("pipelined-file-%dops" % nops, fn, ["closed-without-error=>file-holds-exactly-what-was-written"],
+                {"operations": nops, "kinds": PIPE_OPS, "rejected write": [None, 1, 2], "error codes": [4, 3, 1]})
+
+
 def cases(tier):
-    return [put_case(), get_case()]
+    return [put_case(), get_case(), pipelined_file_case(3 if tier == "quick" else 4)]
